@@ -72,6 +72,36 @@ Lemma read_sequence_ok vs : exists s, read_sequence vs = Ok s.
 Proof. unfold read_sequence. destruct (get_header vs); eexists; reflexivity. Qed.
 Lemma read_status_ok vs : exists s, read_status vs = Ok s.
 Proof. unfold read_status. destruct (get_header vs); eexists; reflexivity. Qed.
+(* getHeader through reflect: when does it return? *)
+Lemma get_header_pointer_header_first fs : get_header_reflect (ShPtrStruct (KHeader :: fs)) = Ok true.
+Proof. reflexivity. Qed.
+(* on a pointer to a struct it panics exactly when an unexported field comes before any Header *)
+Lemma scan_fields_panic_iff fs :
+  scan_fields fs = Panic <-> exists pre post, fs = pre ++ KUnexported :: post /\ Forall (fun k => k = KExported) pre.
+Proof.
+  induction fs as [|k fs IH]; cbn [scan_fields].
+  - split; [discriminate|]. intros (pre & post & E & _). destruct pre; discriminate.
+  - destruct k.
+    + split; [discriminate|]. intros (pre & post & E & F). destruct pre as [|x pre]; [discriminate|].
+      inversion E; subst. inversion F; subst. discriminate.
+    + rewrite IH. split.
+      * intros (pre & post & -> & F). exists (KExported :: pre), post. split; [reflexivity|constructor; auto].
+      * intros (pre & post & E & F). destruct pre as [|x pre]; [discriminate|]. inversion E; subst. inversion F; subst.
+        exists pre, post. split; auto.
+    + split; [|reflexivity]. intros _. exists [], fs. split; [reflexivity|constructor].
+Qed.
+(* ... and on anything but a non-nil pointer to a struct (or the empty struct by value) it panics:
+   ReadSequence(pdu.DeliverSM{}) — the value instead of the pointer — does *)
+Lemma get_header_value_refuted : exists s, s = ShStruct [KHeader; KExported] /\ get_header_reflect s = Panic.
+Proof. eexists; split; reflexivity. Qed.
+Lemma get_header_not_pointer s : get_header_reflect s <> Panic ->
+  (exists fs, s = ShPtrStruct fs) \/ s = ShStruct [].
+Proof.
+  destruct s as [fs| |fs|]; cbn [get_header_reflect]; intros H; try congruence.
+  - left. eexists; reflexivity.
+  - destruct fs; [right; reflexivity|congruence].
+Qed.
+
 Lemma resp_ok pairs lay vs : exists o, resp pairs lay vs = Ok o.
 Proof.
   unfold resp. destruct (find_pair pairs (l_id lay)) as [[rid c]|]; [|eexists; reflexivity].
